@@ -179,7 +179,12 @@ impl Scanner {
         // Check for a byte literal
         if self.ch == '\'' && identifier == "b" {
             self.read_char();
-            let the_byte = self.input[self.position];
+            if self.ch == '\0' {
+                // unterminated byte literal at the end of input
+                let tok: String = self.input[position..self.position].iter().collect();
+                return self.make_token(TokenType::Illegal, &tok);
+            }
+            let the_byte = self.ch;
             // Consume ending quote (')
             self.read_char();
             if self.ch == '\'' {
@@ -309,7 +314,12 @@ impl Scanner {
         let position = self.position;
         // move past the opening quote (') character
         self.read_char();
-        let the_char = self.input[self.position].to_string();
+        if self.ch == '\0' {
+            // unterminated char literal at the end of input
+            let tok: String = self.input[position..self.position].iter().collect();
+            return self.make_token(TokenType::Illegal, &tok);
+        }
+        let the_char = self.ch.to_string();
         self.read_char();
         if self.ch == '\'' {
             return self.make_token(TokenType::Char, &the_char);
